@@ -46,6 +46,19 @@ def call_method(I, recv, name, args, kwargs, node):
         return slist_method(I, recv, name, args, kwargs, node)
     if isinstance(recv, SBytes):
         return sbytes_method(I, recv, name, args, kwargs, node)
+    from .values import SMap
+    if isinstance(recv, SMap):
+        if name == "copy":
+            return SMap(recv.dom, recv.val)
+        if name == "get":
+            k = I.numeric(args[0]) if not isinstance(args[0], (str, bytes)) and args[0] is not None else None
+            default = args[1] if len(args) > 1 else None
+            if k is None:
+                return default
+            if I.ctx.branch(recv.has(k)):
+                return recv.get(k)
+            return default
+        raise SymError("method %s on symbolic map" % name)
     if isinstance(recv, dict):
         return dict_method(I, recv, name, args, kwargs, node)
     if isinstance(recv, set):
